@@ -32,6 +32,11 @@ type config struct {
 	AddOnly       bool
 	ErrAddedFirst bool
 	FlagsHow      int // which public way sets the flags (vlib.SetFlagsVia)
+	// Removed: a further writer of kind RemovedKind (plain / closer / level-settable / both) is added right after the
+	// first writer of the normal (1), error (2) or per-level (3) list and removed again once the list is complete;
+	// it must receive nothing and the others exactly one Write. 0: no such writer
+	Removed     int
+	RemovedKind int
 }
 
 var flagChoices = []slog.Flags{slog.Lcaller, slog.LattrsR, slog.Ldate, slog.Ltime, slog.Lmicroseconds, slog.Lprivacypath,
@@ -55,6 +60,8 @@ func genConfig() *rapid.Generator[config] {
 		c.AddOnly = rapid.IntRange(0, 3).Draw(t, "addOnly") == 0
 		c.ErrAddedFirst = rapid.Bool().Draw(t, "errAddedFirst")
 		c.FlagsHow = rapid.SampledFrom([]int{0, 0, 1, 2, 3}).Draw(t, "flagsHow")
+		c.Removed = rapid.SampledFrom([]int{0, 0, 0, 1, 2, 3}).Draw(t, "addedThenRemoved")
+		c.RemovedKind = rapid.IntRange(0, 3).Draw(t, "removedKind")
 		return c
 	})
 }
@@ -113,6 +120,7 @@ func run(t vlib.TB, test string, c config, k call) {
 	id := 0
 	next := func() vlib.Writer { id++; return vlib.NewRec(log, id, id) }
 	var normals, errs, lvls []int
+	extra := vlib.NewRec(log, 100, c.RemovedKind) // the writer that is added and removed again (c.Removed)
 	addNormals := func() {
 		for i := 0; i < c.NNormal; i++ {
 			w := next()
@@ -122,6 +130,12 @@ func run(t vlib.TB, test string, c config, k call) {
 				lg.AddWriter(w)
 			}
 			normals = append(normals, w.ID())
+			if i == 0 && c.Removed == 1 {
+				lg.AddWriter(extra)
+			}
+		}
+		if c.Removed == 1 {
+			lg.RemoveWriter(extra)
 		}
 	}
 	addErrors := func() {
@@ -133,6 +147,12 @@ func run(t vlib.TB, test string, c config, k call) {
 				lg.AddErrorWriter(w)
 			}
 			errs = append(errs, w.ID())
+			if i == 0 && c.Removed == 2 {
+				lg.AddErrorWriter(extra)
+			}
+		}
+		if c.Removed == 2 {
+			lg.RemoveErrorWriter(extra)
 		}
 	}
 	if c.AddOnly {
@@ -155,6 +175,12 @@ func run(t vlib.TB, test string, c config, k call) {
 		w := next()
 		lg.AddLevelWriter(k.R, w)
 		lvls = append(lvls, w.ID())
+		if i == 0 && c.Removed == 3 {
+			lg.AddLevelWriter(k.R, extra)
+		}
+	}
+	if c.Removed == 3 && c.NLevel > 0 {
+		lg.RemoveLevelWriter(k.R, extra)
 	}
 	lg.SetLevel(c.L)
 	debug := c.L == slog.DebugLevel // SetLevel(Debug) switches debug mode on (documented side effect)
@@ -177,8 +203,8 @@ func run(t vlib.TB, test string, c config, k call) {
 		want = nil
 	}
 
-	where := fmt.Sprintf("%s severity=%v logger{level=%v format=%s child=%v attrs=%v flags=%#x} msg=%s args=[%s] println=%s",
-		k.EP.Name, k.R, c.L, c.Format, c.Child, c.LoggerAttrs, int64(slog.GetFlags()), vlib.Short(k.Msg), describeArgs(k.Args.Args), k.PrintlnMode)
+	where := fmt.Sprintf("%s severity=%v logger{level=%v format=%s child=%v attrs=%v flags=%#x addOnly=%v addedThenRemoved=%d(kind %d, writer 100)} msg=%s args=[%s] println=%s",
+		k.EP.Name, k.R, c.L, c.Format, c.Child, c.LoggerAttrs, int64(slog.GetFlags()), c.AddOnly, c.Removed, c.RemovedKind, vlib.Short(k.Msg), describeArgs(k.Args.Args), k.PrintlnMode)
 
 	func() {
 		defer func() {
@@ -252,7 +278,7 @@ func run(t vlib.TB, test string, c config, k call) {
 	}
 
 	// classification
-	labels := []string{"format=" + c.Format, "ep=" + k.EP.Kind, fmt.Sprintf("admit=%v", admit), fmt.Sprintf("add-only=%v", c.AddOnly)}
+	labels := []string{"format=" + c.Format, "ep=" + k.EP.Kind, fmt.Sprintf("admit=%v", admit), fmt.Sprintf("add-only=%v", c.AddOnly), fmt.Sprintf("added-then-removed=%d", c.Removed)}
 	for l := range k.Args.Labels {
 		labels = append(labels, "args:"+l)
 	}
